@@ -295,9 +295,64 @@ def gen_scenario(rng, k, force=None):
     return sc
 
 
+def gen_billing_rows(rng, sc):
+    """daily or hourly meter rows handed to a billing class (it sums them per calendar month): whole calendar months,
+    with 0-3 months without any meter value at the start, in the interior or at the end of the span.
+    Not generated: spans that are not whole calendar months (the monthly total is spread over the days before the first
+    row), days missing inside a month (the month's total hides them) and - frame constructor - a trailing month without
+    values (the preceding month becomes a 61-day off-cycle period and is dropped); see the report."""
+    import calendar
+    for _ in range(20):
+        y, m = rng.randrange(2018, 2022), rng.randrange(1, 13)
+        k = rng.choice([12, 12, 12, 11, 11, 10, 13, 9])
+        lens = [calendar.monthrange(y + (m - 1 + j) // 12, (m - 1 + j) % 12 + 1)[1] for j in range(k)]
+        sc["start"], sc["span"] = [y, m, 1], sum(lens)
+        ts = L.day_starts(sc, extra=2)
+        if all(ts[i + 1] - ts[i] == L.DAY for i in range(sc["span"] - 3, sc["span"] + 1)):
+            break
+    sc["meter_source"] = rng.choice(["daily", "daily", "hourly"])
+    if sc["meter_source"] == "hourly":
+        sc["temp_source"] = "hourly"
+    nmiss = rng.choice([0, 1, 1, 2, 2, 3])
+    where = rng.choice(["start", "interior", "end", "mixed"])
+    if where == "end" and sc["entry"] == "frame":
+        where = "interior"
+    if where == "start":
+        miss = list(range(nmiss))
+    elif where == "end":
+        miss = list(range(k - nmiss, k))
+    elif where == "interior":
+        miss = sorted(rng.sample(range(1, k - 1), nmiss))
+    else:
+        pool = list(range(0, k - 1)) if sc["entry"] == "frame" else list(range(k))
+        miss = sorted(rng.sample(pool, nmiss))
+    sc["usage_missing"] = [[sum(lens[:j]), lens[j]] for j in miss]
+    sc["target"] = ["billing_rows", nmiss]
+    n = sc["span"]
+    months = [L.local_month(t, sc["tz"]) for t in L.day_starts(sc)]
+    tmiss = place(rng, months, 1, n - 1, rng.choice([0, 0, 2, 20, 40]), caps=rng.random() < 0.6)
+    if sc["temp_source"] == "hourly":
+        hs = L.hour_starts(sc)
+        ds = L.day_starts(sc, extra=1)
+        first, j = {}, 0
+        for i in range(n):
+            first[i] = j
+            while j < len(hs) and hs[j] < ds[i + 1]:
+                j += 1
+        first[n] = j
+        sc["temp_missing"] = sorted([first[d], first[d + 1] - first[d]] for d in tmiss)
+    else:
+        sc["temp_missing"] = to_runs(tmiss)
+    if sc["period"] == "reporting":
+        sc["observed_column"] = True
+    return sc
+
+
 def gen_billing(rng, sc):
     """billing periods: a monthly (27-34 days) or bimonthly (56-65) cycle, a few stamps without a reading, at most two
     off-cycle periods; temperature gaps in days / hours"""
+    if rng.random() < 0.3:
+        return gen_billing_rows(rng, sc)
     T = sc["span"]
     # a final billing day with a clock change shifts the closing stamp (end + 24 h) by an hour and the class loses that
     # day's usage: usage conservation is C08's subject, so the last days here are plain 24-hour days
@@ -713,7 +768,8 @@ def main():
         "source (daily, hourly) x a target: usage / temperature / both placed so that the whole valid days land on, one "
         "below or one above 90 % of the span (hourly: valid hours = 24 n + {0, 1, 23}), one calendar month at / one cell "
         "past its 90 % (usage, temperature, irradiance), negative values, extreme values, zeros, no data, missing ends, "
-        "random gaps, billing cycles with short / long / unread periods. distinct = hash of the scenario; non-trivial = "
+        "random gaps, billing cycles with short / long / unread periods, daily / hourly rows handed to the billing classes "
+        "with 0-3 whole calendar months without a value. distinct = hash of the scenario; non-trivial = "
         "the data class returned an object on an input with data")
     run.assumptions += [
         "whole days: a day count is the whole number of elapsed days in the summed period lengths (each timestamp's period up "
